@@ -788,6 +788,7 @@ FILE *sim_fopen(const char *path, const char *mode) {
   VFile *v = new VFile{it->second, 0, 0x5646494C};
   W.log(C_FOPEN, -1, 0, 0, (long)hash_str(0, path) & 0xffff);
   W.bump("file_opened");
+  if (W.file_io_yields && sched_active()) sched_point(WHY_IO);
   return (FILE *)v;
 }
 size_t sim_fread(void *buf, size_t sz, size_t n, FILE *fp) {
